@@ -115,7 +115,11 @@ pub struct Access {
 }
 
 /// Shared state of one simulated document: recorder, fault plan, scheduler hook.
+pub const DOC_PANIC_MSG: &str = "tausim: simulated failure inside the document (call-back unwinds)";
+
 pub struct Ctx {
+    /// 0 = never; n = the n-th seam event of this context panics (the document's own failure)
+    pub panic_at: AtomicU64,
     pub record: bool,
     pub rec: Mutex<Vec<Access>>,
     pub faults: Vec<Fault>,
@@ -128,6 +132,7 @@ pub struct Ctx {
 impl Ctx {
     pub fn new(record: bool, faults: Vec<Fault>, sched: Option<Arc<Sched>>) -> Arc<Ctx> {
         Arc::new(Ctx {
+            panic_at: AtomicU64::new(0),
             record,
             rec: Mutex::new(vec![]),
             faults,
@@ -139,7 +144,10 @@ impl Ctx {
     }
 
     fn seam(&self) {
-        self.steps.fetch_add(1, Ordering::Relaxed);
+        let n = self.steps.fetch_add(1, Ordering::Relaxed) + 1;
+        if n == self.panic_at.load(Ordering::Relaxed) {
+            panic!("{}", DOC_PANIC_MSG);
+        }
         if let Some(s) = &self.sched {
             s.yield_point();
         }
